@@ -91,6 +91,8 @@ class Shape:
         return (f"/// module\npub mod m{self.sid} {{\n    #![allow(dead_code)]\n{imp}    #[allow(unused_imports)] use super::{{Opaque, Zst}};\n"
                 + "\n".join("    " + l for l in self.decl().split("\n"))
                 + f"\n    /// touch the generated types\n    {vis} fn touch() -> usize {{ let v = {self.name}Vec::new(); v.len() + v.as_slice().len() }}\n"
+                + "".join(f"    /// a #[nested_soa] field is stored as the nested struct's own SoA vector\n    {self.vis + ' ' if self.vis else ''}fn nested_{i}(v: &{self.name}Vec) -> usize {{ let x: &<{t} as {'soa_derive::' if self.no_import else ''}StructOfArray>::Type = &v.{n}; x.len() }}\n"
+                          for i, (_, n, t, nest) in enumerate(self.fields) if nest)
                 + "\n".join("    " + l for l in self.extra.split("\n") if l) + "\n}\n")
 
     def desc(self):
